@@ -1062,7 +1062,7 @@ Section UdpRead.
     { pose proof (parses_count _ _ _ Hp) as Hc. rewrite skipn_length in Hc. lia. }
     destruct (read_answers_loop_spec pa _ _ _ Hp d1 off1 (S (length d1)) Hoff1 ltac:(lia) eq_refl Hfuel)
       as (b1 & Hra & Hb1).
-    exists b1. split; [exact Hra|]. intros Hopen. specialize (Hb1 Hopen). subst b1.
+    exists b1. split; [rewrite Hra; reflexivity|]. intros Hopen. specialize (Hb1 Hopen). subst b1.
     cbn [length]. rewrite Z.sub_0_r. unfold remaining, wf, data_len. cbn [b_off b_data b_tag].
     rewrite Nat2Z.id, skipn_all. repeat split; lia.
   Qed.
@@ -1183,16 +1183,80 @@ Lemma frames_spec ms tl : Forall small ms -> incomplete tl -> frames (flat_map f
 Proof. intros H1 H2. apply parses_frames, parses_flat_map; assumption. Qed.
 
 (* ------------------------------------------------------------------------------------ *)
-(* Data read in the same read_conn_packets() loop as a disconnect (open finding)          *)
+(* Data read in the same read_conn_packets() loop as a disconnect                        *)
 (* ------------------------------------------------------------------------------------ *)
-(* The unrestricted claim "the messages delivered do not depend on how the stream and the
-   disconnect that follows it are grouped into read events" is FALSE for the pinned code: a
-   read that fills the buffer makes the loop read again, and if that read reports EOF the
-   connection is closed with the bytes just read still unparsed. *)
-Theorem data_before_disconnect_refuted :
-  exists (pa : list Z -> bool) (bytes : list Z) b1 b2,
-    (* one read event: a full read, then EOF in the same loop *)
-    run_reads pa true buf_create [[RdBytes false bytes true; RdBytes false [] false]] = Ok (b1, [], Closed) /\
-    (* two read events: the same bytes, EOF seen by the next event *)
-    run_reads pa true buf_create [[RdBytes false bytes false]; [RdBytes false [] false]] = Ok (b2, [ex_msg1], Closed).
-Proof. exists ex_pa, (frame ex_msg1). eexists _, _. split; vm_compute; reflexivity. Qed.
+(* the reads of one TCP read_conn_packets() call before the socket reported a failure *)
+Fixpoint strip_fail (rs : list rd) : list rd :=
+  match rs with
+  | RdBytes rc (x :: bs) true :: rs' => RdBytes rc (x :: bs) true :: strip_fail rs'
+  | _ => []
+  end.
+
+(* ... and the call does end with a failure: EOF, reset or another error *)
+Fixpoint ends_in_failure (rs : list rd) : bool :=
+  match rs with
+  | RdBytes _ [] _ :: _ => true
+  | RdFail :: _ => true
+  | RdBytes _ (_ :: _) true :: rs' => ends_in_failure rs'
+  | _ => false
+  end.
+
+Definition closed_of {A B} (o : outcome (A * B * conn_end)) : outcome (A * B * conn_end) :=
+  match o with Ok (a, b, _) => Ok (a, b, Closed) | x => x end.
+
+Lemma rcp_strip_open : forall rs b b' e, read_conn_packets true b (strip_fail rs) = Ok (b', e) -> e = StillOpen.
+Proof.
+  induction rs as [|r rs IH]; intros b b' e H; cbn in H.
+  - inversion H. reflexivity.
+  - destruct r as [rc bytes full| |]; try (cbn in H; inversion H; reflexivity).
+    destruct bytes as [|x bs]; [cbn in H; inversion H; reflexivity|].
+    destruct full; [|cbn in H; inversion H; reflexivity].
+    cbn [read_conn_packets] in H. destruct (buf_append b rc (x :: bs)) as [b1| |]; cbn [bind] in H; try discriminate.
+    eapply IH; eauto.
+Qed.
+
+Lemma rcp_fail : forall rs b, ends_in_failure rs = true ->
+  read_conn_packets true b rs =
+    match read_conn_packets true b (strip_fail rs) with Ok (b1, _) => Ok (b1, Closed) | x => x end.
+Proof.
+  induction rs as [|r rs IH]; intros b H; cbn in H; [discriminate|].
+  destruct r as [rc bytes full| |]; try discriminate.
+  - destruct bytes as [|x bs]; [reflexivity|]. destruct full; [|discriminate].
+    cbn [read_conn_packets strip_fail]. destruct (buf_append b rc (x :: bs)) as [b1| |]; cbn [bind]; auto.
+  - reflexivity.
+Qed.
+
+Section Disconnect.
+  Variable pa : list Z -> bool.
+
+  Lemma process_read_fail rs b : ends_in_failure rs = true ->
+    process_read pa true b rs = closed_of (process_read pa true b (strip_fail rs)).
+  Proof.
+    intros H. unfold process_read. rewrite (rcp_fail rs b H).
+    destruct (read_conn_packets true b (strip_fail rs)) as [[b1 e]| |] eqn:E; cbn [bind closed_of]; auto.
+    rewrite (rcp_strip_open _ _ _ _ E).
+    destruct (read_answers pa b1) as [[[b2 ms] e2]| |]; cbn [bind closed_of]; auto.
+  Qed.
+
+  (* C20_data_before_disconnect: a connection failure seen in the same read event as data
+     (after reads that filled the buffer) delivers exactly what the same event without the
+     failure delivers; only the fate of the connection differs.  No hypothesis on the earlier
+     events, the bytes or process_answer. *)
+  Theorem data_before_disconnect : forall calls b rs, ends_in_failure rs = true ->
+    run_reads pa true b (calls ++ [rs]) = closed_of (run_reads pa true b (calls ++ [strip_fail rs])).
+  Proof.
+    induction calls as [|c calls IH]; intros b rs H; cbn [app run_reads].
+    - rewrite (process_read_fail rs b H).
+      destruct (process_read pa true b (strip_fail rs)) as [[[b1 ms] e]| |]; cbn [bind closed_of]; auto.
+      destruct e; cbn; rewrite ?app_nil_r; reflexivity.
+    - destruct (process_read pa true b c) as [[[b1 ms] e]| |]; cbn [bind closed_of]; auto.
+      destruct e; [|reflexivity]. rewrite (IH b1 rs H).
+      destruct (run_reads pa true b1 (calls ++ [strip_fail rs])) as [[[b2 ms2] e2]| |]; cbn [bind closed_of]; auto.
+  Qed.
+End Disconnect.
+
+Example ex_disconnect :
+  ends_in_failure [RdBytes false (frame ex_msg1) true; RdBytes false [] false] = true /\
+  exists b, run_reads ex_pa true buf_create [[RdBytes false (frame ex_msg1) true; RdBytes false [] false]]
+            = Ok (b, [ex_msg1], Closed).
+Proof. split; [reflexivity|]. eexists. vm_compute. reflexivity. Qed.
